@@ -25,6 +25,14 @@ func HandWritten() []*Case {
 		return c
 	}
 	_ = withSub
+	// withRoot: a package at the root of the module (its import path is exactly the two-element
+	// module path), imported by the case
+	withRoot := func(c *Case, src string) *Case {
+		sub := &Pkg{Dir: "..", Name: "synth", Files: []*File{{Name: "rootpkg.go", Decls: []*Decl{{Kind: "raw", Name: "s", Text: src}}}}}
+		c.Subs = append(c.Subs, sub)
+		c.Main.Imports["synth"] = ModulePath
+		return c
+	}
 	gen := "type Gen[T any] struct {\n\tV T\n\tOk bool\n}\n"
 	out := []*Case{
 		mk("h01", "one-letter-union", "ph01", "type I interface{ isI() }\ntype A struct{ X int }\nfunc (A) isI() {}\ntype W struct{ V I }\n", ""),
@@ -78,6 +86,8 @@ func HandWritten() []*Case {
 		mk("h44", "json-column-of-recursive-named-container", "ph44", "type Tree []Tree\ntype Dict map[string]Dict\ntype T struct {\n\tId int64\n\tTree Tree\n\tDict Dict\n}\n", ""),
 		mk("h45", "enum-constants-over-two-files-with-equal-values", "ph45", "type Color int\nconst (\n\tRed Color = iota\n\tGreen\n\tBlue\n)\ntype Paint struct {\n\tC Color\n\tL Level\n}\n", "const defaultColor = Green\nconst fallbackColor Color = Red\ntype Level uint8\nconst (\n\tLow Level = iota\n\tHigh\n)\nconst levelUnset Level = 255\nconst levelDefault = Low\n"+bigPadding()),
 		mk("h58", "outer-field-with-the-go-name-of-a-promoted-field", "ph58", "type Stamps struct {\n\tID int `json:\"revision_id\"`\n\tAt string `json:\"at\"`\n}\ntype Doc struct {\n\tID int `json:\"id\"`\n\tStamps\n\tTitle string\n}\ntype Hidden struct {\n\tID int `json:\"-\"`\n\tStamps\n\tNote string\n}\n", ""),
+		withRoot(mk("h62", "enum-of-the-package-at-the-module-root", "ph62", "type Order struct {\n\tS synth.RootStatus\n\tHistory []synth.RootStatus\n\tByMode map[synth.RootMode]int\n}\n", ""), "type RootStatus int\nconst (\n\tRootOpen RootStatus = iota\n\tRootPaid\n\tRootShipped\n)\ntype RootMode string\nconst (\n\tRootFast RootMode = \"fast\"\n\tRootSlow RootMode = \"slow\"\n)\n"),
+		mk("h61", "union-members-of-another-file-through-promoted-methods", "ph61", "type Shape interface{ isShape() }\ntype Drawing struct {\n\tMain Shape\n\tName string\n}\n", "type base struct{ ID int }\nfunc (base) isShape() {}\ntype Circle struct {\n\tbase\n\tR float64\n}\ntype Square struct {\n\t*base\n\tSide float64\n}\ntype Dot struct{ X, Y int }\nfunc (Dot) isShape() {}\n"),
 		mk("h60", "union-marker-method-on-a-pointer-receiver", "ph60", "type Shape interface{ isShape() }\ntype Circle struct{ R int }\nfunc (Circle) isShape() {}\ntype Square struct{ Side int }\nfunc (Square) isShape() {}\n// Canvas satisfies Shape through its pointer only: the value type is no member\ntype Canvas struct{ W, H int }\nfunc (c *Canvas) isShape() {}\ntype Drawing struct {\n\tMain Shape\n\tAll []Canvas\n}\n", ""),
 		withSub(mk("h57", "union-struct-embedding-a-struct-of-a-sub-package", "ph57", "type Shape interface{ isShape() }\ntype Circle struct{ R float64 }\nfunc (Circle) isShape() {}\ntype Drawing struct {\n\tmeta.Info\n\tMain Shape\n\tTitle string\n}\n", ""), "meta", "type Kind int\nconst (\n\tDraft Kind = iota\n\tFinal\n)\ntype Label string\ntype Info struct {\n\tKind Kind\n\tLabels []Label\n\tRev int\n}\n"),
 		withSub(mk("h59", "enum-of-a-sibling-package", "ph59", "type Order struct {\n\tS mdl59.Status\n\tC mdl59.Currency\n}\n", ""), "../mdl59", "type Status int\nconst (\n\tOpen Status = iota\n\tPaid\n\tClosed\n)\ntype Currency string\nconst (\n\tEur Currency = \"EUR\"\n\tUsd Currency = \"USD\"\n)\n"),
